@@ -1,5 +1,6 @@
 import SakuraVerif.Model.ControlFlow
 import SakuraVerif.Gen.Consts
+import SakuraVerif.Lemmas.ScriptStack
 /-! # C11 (mechanism level) — IF/FOR/WHILE/BREAK/CONTINUE behave like the unrolled program
 
 `execWhile` / `execFor` model `runner::exec_while` / `exec_for` literally, parametric in the effect
@@ -116,5 +117,51 @@ def spin : Ops (Nat × Nat × Nat) :=
   { cond := fun _ => true, body := fun s => (s.1 + 1, 2, s.2.2), inc := id, flag := fun s => s.2.1,
     clearFlag := fun s => (s.1, 0, s.2.2), logLimit := fun s => (s.1, s.2.1, s.2.2 + 1) }
 example : execWhile spin 5 20 0 (0, 0, 0) = (6, 0, 1) := by decide
+
+/-! ## the literal script runner (`Model.ScriptExec`, tied to `runner::exec` on real token lists by the stream `scriptexec`) -/
+
+open Sakura.Sx in
+/-- **a call leaves no value behind** — stack discipline of the whole script layer: for every function table whose bodies are
+    statement lists and every program of statement tokens (the shapes the lexer produces: declarations, assignments, PRINT, IF,
+    FOR, WHILE, BREAK, CONTINUE, RETURN, calls as statements and inside expressions with any arguments, empty argument slots),
+    with any nesting and any fuel, the value stack is empty again after the run.  An omitted argument therefore never finds a
+    stale value and takes its declared default.  (Before the repair d9451f4 this was false of the code: the flag
+    `function_needs_return_value` stayed set inside a called function's body.) -/
+theorem C11_call_leaves_no_value (fns : List Fn) (hfn : FnsOK fns) (toks : List Tok) (ht : ∀ t ∈ toks, Stm fns t) (fuel : Nat) :
+    (run fns toks fuel).stack = [] :=
+  run_stack_empty fns hfn toks ht fuel
+
+open Sakura.Sx in
+/-- the same for every statement in every reachable context: run from an empty stack with the flag clear, a statement leaves
+    the stack empty and the flag clear; an argument run with the flag set leaves at most one value -/
+theorem C11_stack_discipline (fns : List Fn) (hfn : FnsOK fns) (f : Nat) :
+    (∀ t s, Stm fns t → s.stack = [] → s.needRet = false → (execTok fns f t s).stack = [] ∧ (execTok fns f t s).needRet = false) ∧
+    (∀ t s, Arg fns t → s.stack = [] → s.needRet = true → (execTok fns f t s).stack.length ≤ 1 ∧ (execTok fns f t s).needRet = true) :=
+  ⟨(allOK fns hfn f).1, (allOK fns hfn f).2.2.1⟩
+
+-- non-vacuity: the token list of `FUNCTION FA(JB=7){ RETURN(JB) } FA(); PRINT(FA())` is inside the classes
+open Sakura.Sx in
+def demoFns : List Fn :=
+  [⟨[[74, 66]], [some (.int 7)], [.mk .return_ 0 0 0 none [] (some [.mk .tokens 0 0 0 none [] (some [.mk .getVariable 0 0 0 (some [74, 66]) [] none])])]⟩]
+open Sakura.Sx in
+def demoToks : List Tok :=
+  [.mk .callUser 0 0 0 none [] (some [.mk .tokens 0 0 0 none [] (some [])]),
+   .mk .print 0 0 0 none [] (some [.mk .tokens 0 0 0 none [] (some [.mk .callUser 1 0 0 none [] (some [])])])]
+open Sakura.Sx in
+example : FnsOK demoFns ∧ (∀ t ∈ demoToks, Stm demoFns t) := by
+  constructor
+  · intro fn hfn t ht
+    simp only [demoFns, List.mem_cons, List.not_mem_nil, or_false] at hfn
+    subst hfn
+    simp only [List.mem_cons, List.not_mem_nil, or_false] at ht
+    subst ht
+    exact Stm.return_ _ _ _ _ _ _ (Or.inr ⟨_, rfl, Arg.ex (Ex.wrap _ _ _ _ _ _ (Ex.getVar _ _ _ _ _ _))⟩)
+  · intro t ht
+    simp only [demoToks, List.mem_cons, List.not_mem_nil, or_false] at ht
+    rcases ht with rfl | rfl
+    · exact Stm.call _ _ _ _ _ _ (by decide) (by decide) (by intro a ha; simp at ha; subst ha; exact Arg.empty _ _ _ _ _)
+    · refine Stm.print _ _ _ _ _ _ ?_
+      intro a ha; simp at ha; subst ha
+      exact Arg.ex (Ex.wrap _ _ _ _ _ _ (Ex.call _ _ _ _ _ _ (by decide) (by decide) (by intro a ha; simp at ha)))
 
 end Sakura.Props.C11
